@@ -69,6 +69,8 @@ pub fn run(cases: &[Value], trace: &mut Trace, seed: u64) {
         // every answer (server side) are refused (0) or accept only that many bytes
         let sendfault: Vec<u64> = case["sendfault"].as_array().map(|a| a.iter().map(|x| x.as_u64().unwrap_or(0)).collect()).unwrap_or_default();
         let fault_be = case["faultside"].as_str() == Some("be");
+        // transient receive conditions (EAGAIN = 11, EINTR = 4) met by the first receive attempts of every call / request
+        let recvfault: Vec<i32> = case["recvfault"].as_array().map(|a| a.iter().map(|x| x.as_i64().unwrap_or(0) as i32).collect()).unwrap_or_default();
         let core = Core::new();
         crate::eng_server::apply_dev(&core, &case["dev"]);
         let stop = Arc::new(AtomicBool::new(false));
@@ -132,6 +134,9 @@ pub fn run(cases: &[Value], trace: &mut Trace, seed: u64) {
             if !sendfault.is_empty() {
                 crate::eng_sender::arm_send_only(if fault_be { &bdup } else { &fdup }, &sendfault, k % 2 == 1);
             }
+            if !recvfault.is_empty() {
+                crate::eng_sender::arm_recv(if fault_be { &bdup } else { &fdup }, &recvfault);
+            }
             let (tx, rx) = channel();
             let mut fe2 = fe.clone();
             let (op2, cls2) = (op.clone(), cls.clone());
@@ -168,6 +173,9 @@ pub fn run(cases: &[Value], trace: &mut Trace, seed: u64) {
             }
             if !sendfault.is_empty() {
                 crate::eng_sender::disarm_quiet();
+            }
+            if !recvfault.is_empty() {
+                crate::eng_sender::disarm_recv();
             }
             let calls = core.take_calls();
             let srv_errs: Vec<String> = std::mem::take(&mut *errs.lock().unwrap());
